@@ -1402,6 +1402,8 @@ class Ctx:
             for k in x:
                 s.put(k, True)
             return s
+        if x is None:
+            return s       # poison value: an exception guard already covers this alternative
         raise Unsupported('to_mset %r' % (x,))
 
     def set_binop(self, op, a, b):
